@@ -176,14 +176,26 @@ def gen_literals(run):
             run.judge(case, ok, clause=f"literal {rec['text']} evaluates to {case['obs']}, the double nearest to the decimal is {case['ideal']}",
                       nontrivial='.' in rec['text'] or 'e' in rec['text'], part='literal')
             run.traces_validated += 1
+            if 'pct' in obs and rec['s'] >= 0:
+                # the same literal with a postfix %: its hundredth, at any magnitude (m * 10^-(s+2))
+                ideal = absval.norm_dec(rec['m'], rec['s'] + 2)
+                op = obs['pct']
+                ok = op['o'] == 'value' and op['v'].get('k') in ('dec',) and absval.same(ideal, op['v'])
+                case = {'in': {'literal': rec['text'] + '%'}, 'ideal': absval.show(ideal), 'obs': absval.show(op['v']) if op['o'] == 'value' else op, 'kind': 'literal'}
+                run.judge(case, ok, clause=f"{rec['text']}% evaluates to {case['obs']}, the hundredth of the literal is {case['ideal']}", part='literal')
+                run.traces_validated += 1
 
 
 def _lit_batch(recs):
     try:
         res = repo.eval_formulas(['=' + r['text'] for r in recs], consts={}, timeout=20)
+        pct = {i: r for i, r in enumerate(recs) if r['s'] >= 0 and (r['s'] >= 14 or i % 7 == 0)}
+        pres = dict(zip(pct, repo.eval_formulas(['=' + r['text'] + '%' for r in pct.values()], consts={}, timeout=20)))
         out = []
-        for rec, (k, p) in zip(recs, res):
+        for i, (rec, (k, p)) in enumerate(zip(recs, res)):
             o = absval.obs_outcome(k, p, mode='dec')
+            if i in pres:
+                o['pct'] = absval.obs_outcome(*pres[i], mode='dec')
             if rec['s'] < -6 and k == 'val' and isinstance(p, (int, float)) and not isinstance(p, bool):
                 # beyond the range of the abstract values (32-bit limbs): decided here, exactly - the literal denotes the double nearest
                 # to m * 10^-s; an exact integer that is not that double (10**23) is a different number
